@@ -377,6 +377,8 @@ def _root(node):
     while isinstance(node, (ast.Attribute, ast.Subscript, ast.Starred)):
         node = node.value
     if isinstance(node, ast.Call):
+        if isinstance(node.func, ast.Name) and node.func.id == "type" and len(node.args) == 1:
+            return _root(node.args[0])          # type(self).<...> is state shared by all objects
         return _root(node.func)
     return node.id if isinstance(node, ast.Name) else None
 
@@ -446,10 +448,8 @@ def _check_function(rel: str, cls: str | None, fn: ast.FunctionDef, allowed_self
                 fail(n, f"{where}: writes {txt} (state of the object / of an argument written on the run path)")
         if isinstance(n, ast.Call):
             f = n.func
-            if isinstance(f, ast.Name) and f.id in ("setattr", "delattr") and n.args and _root(n.args[0]) in guarded:
-                fail(n, f"{where}: setattr on the object / an argument")
-            if isinstance(f, ast.Name) and f.id == "vars" and n.args and _root(n.args[0]) in guarded:
-                fail(n, f"{where}: vars() of the object / an argument")
+            if isinstance(f, ast.Name) and f.id in ("setattr", "delattr", "vars", "globals"):
+                fail(n, f"{where}: {f.id}() (attributes written by name)")
             if isinstance(f, ast.Attribute) and f.attr == "__setattr__":
                 fail(n, f"{where}: __setattr__")
             if isinstance(f, ast.Attribute) and f.attr in _INPLACE and _root(f.value) in guarded \
@@ -458,8 +458,8 @@ def _check_function(rel: str, cls: str | None, fn: ast.FunctionDef, allowed_self
                     continue
                 # a method of the same name on a non-container argument cannot be told apart: fail closed
                 fail(n, f"{where}: in-place {f.attr}() on {_u(f.value)} (state of the object / of an argument)")
-        if isinstance(n, ast.Attribute) and n.attr == "__dict__" and _root(n) in guarded:
-            fail(n, f"{where}: __dict__ of the object / an argument")
+        if isinstance(n, ast.Attribute) and n.attr == "__dict__":
+            fail(n, f"{where}: __dict__ (attributes written by name)")
 
 
 def _check_decorators(rel: str, node):
